@@ -200,8 +200,8 @@ package server
 //@ requires {C18} storeOK(server) && conn != nil
 //@ assigns sm_dom[&server.Databases.Map], sm_val[&server.Databases.Map], sm_dom[&recs(server, conn.id).Map], sm_val[&recs(server, conn.id).Map], Record.Key
 //@ ensures {C18} storeOK(server)
-//@ ensures {C18} opt.NX && old(kHas(server, conn.id, newkey)) ==> err == nil && intReply(result0, 0) && kHas(server, conn.id, key) == old(kHas(server, conn.id, key))
-//@ ensures {C18} !(opt.NX && old(kHas(server, conn.id, newkey))) ==> (err == nil <==> old(kHas(server, conn.id, key)))
+//@ ensures {C18} opt.NX && old(kHas(server, conn.id, newkey)) && old(kHas(server, conn.id, key)) ==> err == nil && intReply(result0, 0) && kHas(server, conn.id, key)
+//@ ensures {C18} err == nil <==> old(kHas(server, conn.id, key))
 //@ ensures {C18} !(opt.NX && old(kHas(server, conn.id, newkey))) && err == nil ==> kHas(server, conn.id, newkey) && kData(server, conn.id, newkey) == old(kData(server, conn.id, key))
 //@ ensures {C18} !(opt.NX && old(kHas(server, conn.id, newkey))) && err == nil && key != newkey ==> !kHas(server, conn.id, key)
 //@ ensures {C18} !(opt.NX && old(kHas(server, conn.id, newkey))) && err == nil ==> (opt.NX ? intReply(result0, 1) : statusReply(result0, "OK"))
@@ -461,7 +461,8 @@ package server
 // ---------------------------------------------------------------- zset.go: members ordered by score, one entry per member name
 
 //@ spec func zNN(z ref) bool = z != nil && (forall i int :: 0 <= i && i < len(z.members) ==> z.members[i] != nil && !isNaN(z.members[i].Score))
-//@ spec func zSorted(z ref) bool = forall i int :: 0 <= i && i + 1 < len(z.members) ==> z.members[i].Score <= z.members[i + 1].Score
+// ordered by score, members with equal scores ordered by name (as Redis does)
+//@ spec func zSorted(z ref) bool = forall i int :: 0 <= i && i + 1 < len(z.members) ==> z.members[i].Score <= z.members[i + 1].Score && (z.members[i + 1].Score <= z.members[i].Score ==> z.members[i].Member < z.members[i + 1].Member)
 //@ spec func zUniq(z ref) bool = forall i int, j int :: 0 <= i && i < j && j < len(z.members) ==> z.members[i].Member != z.members[j].Member
 //@ spec func zsetOK(z ref) bool = zNN(z) && zSorted(z) && zUniq(z)
 //@ spec func zAbsent(z ref, name string) bool = forall i int :: 0 <= i && i < len(z.members) ==> z.members[i].Member != name
@@ -507,7 +508,7 @@ package server
 //@   invariant zUniq(zset)
 //@   invariant zAbsent(zset, nm.Member)
 //@   invariant len(zset.members) == old(len(zset.members)) + addedMemberCount - (isNewMember ? 0 : 1)
-//@   invariant forall i int :: 0 <= i && i <= rangeindex ==> zset.members[i].Score <= nm.Score
+//@   invariant forall i int :: 0 <= i && i <= rangeindex ==> zset.members[i].Score <= nm.Score && (nm.Score <= zset.members[i].Score ==> zset.members[i].Member < nm.Member)
 //@   decreases len(zset.members) - rangeindex
 
 //@ func (*ZSet).Rem
